@@ -93,9 +93,17 @@ theorem between_dates_consistent (b e : Date) (hb : b.valid = true) (he : e.vali
   have hhead : (dayTriple b e).head? = some 40 := by rw [hshape]; rfl
   have hlast : (dayTriple b e).getLast? = some 41 := by
     rw [hshape, ← List.cons_append, List.getLast?_concat]
+  -- the duration text starts `P<digit>`, so the `PT…` branch is not taken
+  have hne : natStr (e.ord - b.ord) ≠ [] := (natDigits_spec (e.ord - b.ord + 1) (e.ord - b.ord) (by omega)).2.1
+  obtain ⟨a, t, hnt⟩ := List.exists_cons_of_ne_nil hne
+  have ha : a ≠ 84 := by
+    have := natStr_digits (e.ord - b.ord) a (by rw [hnt]; simp)
+    simp [isDigit] at this; omega
+  have hp : ([80] ++ natStr (e.ord - b.ord) ++ [68] : Str) = 80 :: a :: (t ++ [68]) := by simp [hnt]
+  rw [hp] at hs hd' hdrop
   unfold tripleOK
-  simp only [hhead, hlast, and_self, if_true, hdrop, hs, hpb, hpe, hd', diffSeconds]
-  simp [unitSeconds]
+  simp only [hhead, hlast, and_self, if_true, hdrop, hs, hpb, hpe, diffSeconds]
+  simp [ha, hd', unitSeconds]
   omega
 
 /-- Table rows known to be inconsistent on the unchanged tree (documented, not observable through `recognize_datetime`:
@@ -109,6 +117,86 @@ theorem unit_tables_consistent :
     RTV.Gen.durationRows.all (fun r =>
       knownInconsistentRows.contains (r.1, r.2.1) || codeSeconds r.2.2.1 == some r.2.2.2) = true := by
   decide +kernel
+
+/-- the text the time-period parser writes for two clock times: `(THH:MM:SS,THH:MM:SS,PT…)` with the duration from
+`luis_time_span` -/
+def timeTriple (h₁ m₁ s₁ h₂ m₂ s₂ : Nat) : Str :=
+  [40] ++ ([84] ++ formatTime h₁ m₁ s₁) ++ [44] ++ ([84] ++ formatTime h₂ m₂ s₂) ++ [44] ++
+    luisTimeSpan ((h₂ * 3600 + m₂ * 60 + s₂) - (h₁ * 3600 + m₁ * 60 + s₁)) ++ [41]
+
+theorem luisTimeSpan_no_comma (secs : Nat) : ∀ c ∈ luisTimeSpan secs, c ≠ 44 := by
+  intro c hc
+  have hd : ∀ n, ∀ c ∈ natStr n, c ≠ 44 := by
+    intro n c hc; have := natStr_digits n c hc; simp [isDigit] at this; omega
+  simp only [luisTimeSpan, List.mem_append, List.mem_cons, List.mem_singleton] at hc
+  rcases hc with ((hc | hc) | hc) | hc
+  · simp at hc; omega
+  · split at hc
+    · simp only [List.mem_append, List.mem_singleton] at hc; rcases hc with hc | hc
+      · exact hd _ c hc
+      · omega
+    · simp at hc
+  · split at hc
+    · simp only [List.mem_append, List.mem_singleton] at hc; rcases hc with hc | hc
+      · exact hd _ c hc
+      · omega
+    · simp at hc
+  · split at hc
+    · simp only [List.mem_append, List.mem_singleton] at hc; rcases hc with hc | hc
+      · exact hd _ c hc
+      · omega
+    · simp at hc
+
+/-- C10(d′) **between two clock times**: for all times of day `t₁ < t₂` the triple written with `luis_time_span` is
+self-consistent — end points equal the resolved start / end and the H/M/S duration sums to end − start. -/
+theorem between_times_consistent (h₁ m₁ s₁ h₂ m₂ s₂ : Nat)
+    (a₁ : h₁ < 24) (b₁ : m₁ < 60) (c₁ : s₁ < 60) (a₂ : h₂ < 24) (b₂ : m₂ < 60) (c₂ : s₂ < 60)
+    (hlt : h₁ * 3600 + m₁ * 60 + s₁ < h₂ * 3600 + m₂ * 60 + s₂) :
+    tripleOK (timeTriple h₁ m₁ s₁ h₂ m₂ s₂) (some (formatTime h₁ m₁ s₁)) (some (formatTime h₂ m₂ s₂)) = true := by
+  generalize hd : (h₂ * 3600 + m₂ * 60 + s₂) - (h₁ * 3600 + m₁ * 60 + s₁) = d
+  have hdpos : 0 < d := by omega
+  -- shape of the duration text: `P T <rest>` with a non-empty rest
+  have hP : luisTimeSpan d = 80 :: 84 :: (luisTimeSpan d).drop 2 := by simp [luisTimeSpan]
+  have hrest : (luisTimeSpan d).drop 2 ≠ [] := by
+    intro h
+    have := ptSeconds_luisTimeSpan d 0
+    rw [h] at this
+    simp [ptSeconds] at this
+    omega
+  generalize hR : (luisTimeSpan d).drop 2 = R at hP hrest
+  have hpt : ptSeconds (R.length + 4) R = some (d, 1) := by rw [← hR]; exact ptSeconds_luisTimeSpan d _
+  have hcP : ∀ c ∈ (80 :: 84 :: R : Str), c ≠ 44 := by rw [← hP]; exact luisTimeSpan_no_comma d
+  have hcT : ∀ (h m s : Nat), ∀ c ∈ ([84] ++ formatTime h m s : Str), c ≠ 44 := by
+    intro h m s c hc; simp [formatTime, pad2] at hc; omega
+  have hs : splitOn 44 (([84] ++ formatTime h₁ m₁ s₁) ++ 44 :: (([84] ++ formatTime h₂ m₂ s₂) ++ 44 :: (80 :: 84 :: R))) =
+      [[84] ++ formatTime h₁ m₁ s₁, [84] ++ formatTime h₂ m₂ s₂, 80 :: 84 :: R] := by
+    rw [splitOn_append 44 _ _ (hcT _ _ _), splitOn_append 44 _ _ (hcT _ _ _), splitOn_no_sep 44 _ hcP]
+  have hpp : ∀ (h m s : Nat), h < 24 → m < 60 → s < 60 →
+      parsePoint ([84] ++ formatTime h m s) = some (none, some (h * 3600 + m * 60 + s)) := by
+    intro h m s a b c
+    have e := parseTime_formatTime h m s a b c
+    simp only [formatTime, pad2, List.cons_append, List.nil_append] at e
+    simp [parsePoint, parseDate, timexTime, formatTime, pad2, e]
+  have hfm : ∀ (h m s : Nat), h < 24 → m < 60 → s < 60 →
+      formatTime ((h * 3600 + m * 60 + s) / 3600) ((h * 3600 + m * 60 + s) / 60 % 60) ((h * 3600 + m * 60 + s) % 60) = formatTime h m s := by
+    intro h m s a b c
+    have e1 : (h * 3600 + m * 60 + s) / 3600 = h := by omega
+    have e2 : (h * 3600 + m * 60 + s) / 60 % 60 = m := by omega
+    have e3 : (h * 3600 + m * 60 + s) % 60 = s := by omega
+    rw [e1, e2, e3]
+  have hshape : timeTriple h₁ m₁ s₁ h₂ m₂ s₂ =
+      40 :: ((([84] ++ formatTime h₁ m₁ s₁) ++ 44 :: (([84] ++ formatTime h₂ m₂ s₂) ++ 44 :: (80 :: 84 :: R))) ++ [41]) := by
+    simp only [timeTriple, hd]; rw [hP]; simp
+  have hdrop : ((timeTriple h₁ m₁ s₁ h₂ m₂ s₂).drop 1).dropLast =
+      ([84] ++ formatTime h₁ m₁ s₁) ++ 44 :: (([84] ++ formatTime h₂ m₂ s₂) ++ 44 :: (80 :: 84 :: R)) := by
+    rw [hshape, List.drop_one, List.tail_cons, List.dropLast_concat]
+  have hhead : (timeTriple h₁ m₁ s₁ h₂ m₂ s₂).head? = some 40 := by rw [hshape]; rfl
+  have hlast : (timeTriple h₁ m₁ s₁ h₂ m₂ s₂).getLast? = some 41 := by
+    rw [hshape, ← List.cons_append, List.getLast?_concat]
+  unfold tripleOK
+  simp only [hhead, hlast, and_self, if_true, hdrop, hs, hpp h₁ m₁ s₁ a₁ b₁ c₁, hpp h₂ m₂ s₂ a₂ b₂ c₂, diffSeconds, hpt]
+  simp [hfm h₁ m₁ s₁ a₁ b₁ c₁, hfm h₂ m₂ s₂ a₂ b₂ c₂, hrest]
+  omega
 
 /-- Examples the predicate accepts / rejects (as the implementation writes them). -/
 example : tripleOK ("(2019-01-01,2019-01-15,P14D)".toList.map Char.toNat) (some ("2019-01-01".toList.map Char.toNat))
